@@ -279,6 +279,19 @@ func (r *run) corruptionSweep() {
 		if r.skipTypeByte && isTypeOffset(s, c.off) {
 			continue
 		}
+		if r.skipZeroLenHead && c.seg != last && c.off < 8 && len(s.orig) >= 8 {
+			// (known finding F3) the patched length field of the segment's first record is all zero
+			zero := c.val == 0
+			for i := 0; i < 8; i++ {
+				if i != c.off && s.orig[i] != 0 {
+					zero = false
+				}
+			}
+			if zero {
+				r.st.corruptSkippedF3++
+				continue
+			}
+		}
 		r.st.corruptions++
 		patch := func() error { _, err := fds[c.seg].WriteAt([]byte{c.val}, int64(c.off)); return err }
 		if err := patch(); err != nil {
